@@ -556,8 +556,9 @@ def g2TextBytes (t : TextPt) : Bytes :=
 
 /-- the property for the text forms of points: exact component count; every index a positive
 `i32`; every residue a normalised `BIG` (`< 2^280`, no silent truncation); the denoted projective
-point is on the curve and `r•P = O`; the identity — `(0 : y : 0)` with `y ≠ 0` — only where the
-type allows it -/
+point is on the curve and `r•P = O`; the identity — `x = z = 0`; any `y`, because the all-zero
+triple is a spelling of the empty accumulator that the repository's own suite requires to stay
+readable (`deser_infinity_accum`) — only where the type allows it -/
 def specPointText (B : F2) (ncomp : Nat) (ofRaw : List RawFp → Pt) (allowInf : Bool) (s : List Char) :
     Res TextPt :=
   match parseComponents ncomp (splitWs s) with
@@ -567,7 +568,7 @@ def specPointText (B : F2) (ncomp : Nat) (ofRaw : List RawFp → Pt) (allowInf :
     else
       let P := ofRaw cs
       if P.z.isZero then
-        (if allowInf && P.x.isZero && !P.y.isZero then .ok ⟨cs⟩ else .err)
+        (if allowInf && P.x.isZero then .ok ⟨cs⟩ else .err)
       else if onCurveProj B P && inSubgroup B P then .ok ⟨cs⟩ else .err
 
 def specG1Text (s : List Char) : Res TextPt := specPointText B1 3 g1PtOfRaw false s
